@@ -43,6 +43,16 @@ theorem fmt5e_neg : Fmt5eNegStatement := by
   unfold fmt5e
   simp only [h1, h2, h3, h4, if_true, if_false, List.nil_append, List.cons_append, List.append_assoc]
 
+theorem fmt8_neg : Fmt8NegStatement := by
+  intro k hk
+  have h1 : (-k).natAbs = k.natAbs := Int.natAbs_neg k
+  have h2 : (-k) < 0 := by omega
+  have h3 : ¬ k < 0 := by omega
+  unfold fmt8
+  simp only [h1, h2, h3, if_true, if_false, List.nil_append, List.cons_append, List.append_assoc]
+
+example : fmt8 (-96) = lit "-1.50000000" := by decide +kernel
+
 example : fmt5e (-96) = lit "-1.50000e+00" := by decide +kernel
 example : fmt5e 1 = lit "1.56250e-02" := by decide +kernel
 example : fmt5e 64 = lit "1.00000e+00" := by decide +kernel
